@@ -23,6 +23,7 @@ Queries (Props/C02/Combined.lean `query_reads_stored_data`): before every call b
 the stored datum back and, with `spreading_pressure_at`, agree with a freshly constructed copy of the stored state.
 """
 import itertools
+import re
 from fractions import Fraction as Fr
 
 import c01
@@ -89,6 +90,25 @@ def constructor_accepts(pg, iso):
         return True
     except Exception:  # noqa  refused is refused, whatever the class: the constructor of the pinned tree refuses an invalid material unit under a
         return False    # gas / liquid-volume loading basis with KeyError (its message indexes the wrong table; E17 observation 2, no property states the class)
+
+
+def rebuild_problem(iso):
+    """None when the constructor accepts the isotherm's own description (`to_dict()`) and the rebuilt object carries the same labels and the same
+    temperature; otherwise what is wrong.  Evaluated after EVERY call (accepted or refused, temperature conversions included)."""
+    from pygaps.core.baseisotherm import BaseIsotherm
+    try:
+        b = BaseIsotherm(**iso.to_dict())
+    except Exception as e:  # noqa  refused is refused, whatever the class (see constructor_accepts)
+        return "the constructor refuses to_dict(): " + err_class(e)
+    if labels_of(b) != labels_of(iso):
+        return "rebuilt from to_dict() carries other labels: " + str(labels_of(b))
+    try:
+        tb, ti = float(b.temperature), float(iso.temperature)
+    except Exception as e:  # noqa
+        return "temperature (kelvin) cannot be read: " + err_class(e)
+    if not near(tb, ti, rel=1e-12):
+        return f"rebuilt from to_dict() has temperature {tb!r} K, the isotherm {ti!r} K"
+    return None
 
 
 def clone(pg, iso):
@@ -167,8 +187,13 @@ def gen_combined(rng, lab, PSTATES, LSTATES, MSTATES, refuse_at):
                 s = "".join(rng.choice(LETTERS) for _ in range(rng.randint(2, 9)))
                 if s not in known:
                     return s
-        if r < 0.6:
+        if r < 0.5:
             return rng.choice(sorted(known - {"K"})).capitalize() + "x"          # near miss of a real token
+        if r < 0.75:                                                              # a spelling of a valid token (case, long form, padded, one-character edit)
+            for _ in range(20):
+                s = rng.choice(near_misses(rng.choice(sorted(known - {"bogus"}))))
+                if s not in known:
+                    return s
         return None
 
     bases = {"P": P_MODES, "L": L_BASES, "M": M_BASES}
@@ -220,6 +245,58 @@ def gen_combined(rng, lab, PSTATES, LSTATES, MSTATES, refuse_at):
 
 ARG_UNITS = {"pressure": list(c01.PA), "molar": list(c01.MOL), "mass": list(c01.GRAM), "volume": list(c01.CM3)}
 
+# ---------------------------------------------------------------------------------------------------------------------
+# Near-miss spellings of VALID tokens (units, modes, bases): what a user types instead of the exact token.  Whether such a
+# spelling names a possible target is decided by the code and by the model (Celsius spellings — anything with a c/C — are
+# accepted and normalised by design; everything else is an exact table lookup); the oracles are the general ones: after
+# the call the labels are ones the constructor accepts, a refused call changed nothing, data = original converted directly.
+LONG_FORMS = {
+    "K": ["kelvin", "Kelvin", "KELVIN", "degK", "deg_K", "°K", "ºK", "kelvins", "Kel"],
+    "°C": ["C", "c", "celsius", "Celsius", "CELSIUS", "degC", "°c", "ºC", "centigrade", "deg_C", "oC"],
+    "Pa": ["pascal", "Pascal", "pascals", "N/m2"], "kPa": ["kilopascal", "kpascal"], "MPa": ["megapascal"], "bar": ["bars", "bara", "barg"],
+    "mbar": ["millibar", "mb"], "atm": ["atmosphere", "atmospheres", "at"], "torr": ["Torr", "tor"], "mmHg": ["mmhg", "mm_Hg", "mmHG"],
+    "mmol": ["millimol", "millimole", "mmole", "mmols", "mMol"], "mol": ["mole", "moles", "mols"], "kmol": ["kilomol", "kmole"],
+    "cm3(STP)": ["cm3STP", "cm3_STP", "cm3(stp)", "cm3", "ccSTP", "cm3(STP"], "mL(STP)": ["ml(STP)", "mL", "mlSTP"], "cc(STP)": ["cc", "CC(STP)"],
+    "L(STP)": ["l(STP)", "L", "liter(STP)"],
+    "amu": ["u", "Da", "AMU"], "mg": ["milligram", "mgs", "Mg"], "cg": ["centigram"], "dg": ["decigram"], "g": ["gram", "grams", "gr", "gm"],
+    "kg": ["kilogram", "kilo", "kgs", "Kg"],
+    "cm3": ["cm^3", "cm³", "ccm", "cm-3", "cm3(STP)"], "mL": ["ml", "ML", "milliliter"], "cc": ["CC", "ccs"], "dm3": ["dm^3", "dm³"],
+    "L": ["l", "liter", "litre", "lt"], "m3": ["m^3", "m³", "M3"],
+    "absolute": ["abs", "Absolute", "absolut", "abs.", "absolute%"], "relative": ["rel", "Relative", "relativ", "p/p0", "relative_"],
+    "relative%": ["relative_%", "relative_percent", "Relative%", "rel%", "%", "relativepercent", "relative%%"],
+    "molar": ["Molar", "mol", "mole", "molar_", "moles"], "mass": ["Mass", "weight", "g", "massic", "wt"],
+    "volume_gas": ["volume", "gas", "Volume_gas", "volume-gas", "volumegas", "volume_STP", "vol_gas"],
+    "volume_liquid": ["liquid", "Volume_liquid", "volume-liquid", "volumeliquid", "vol_liquid", "volume_liq"],
+    "fraction": ["Fraction", "frac", "fractional", "wt_fraction"], "percent": ["Percent", "%", "percentage", "wt%", "pct"],
+    "volume": ["Volume", "vol", "volumetric", "volume_gas", "cm3"],
+}
+WS = "\u2423"      # stands for a blank in the tokens sent to the Lean driver (its line protocol splits at blanks); the model looks strings up exactly
+
+
+def near_misses(token):
+    """Spellings close to the valid token `token` that are not `token` itself: case variants, long / short forms, padded forms,
+    punctuation variants and one-character edits (deterministic order, no duplicates)."""
+    t = token
+    out = [t.upper(), t.lower(), t.capitalize(), t.swapcase(), t.title()]
+    out += LONG_FORMS.get(t, [])
+    out += [" " + t, t + " ", " " + t + " ", t + "\t", "\n" + t]                                     # padded
+    out += [t + "s", t + ".", t + "_", "_" + t, t + t[-1], t[0] + t]                                # one character too many
+    if len(t) > 1:
+        out += [t[:-1], t[1:], t[0] + t[2:], t[1] + t[0] + t[2:]]                                   # one too few / swapped
+    out += [re.sub(r"[^0-9A-Za-z]", "", t), t.replace("_", "-"), t.replace("_", " "), t.replace("(", " ("), t.replace("3", "^3"), t.replace("%", " %"),
+            t.replace("°", ""), t.replace("°", "deg")]
+    seen, res = {t, "", "~", '""'}, []
+    for x in out:
+        if x not in seen and not re.search(r";|\[|\]|=", x):
+            seen.add(x)
+            res.append(x)
+    return res
+
+
+def mtok(v):
+    """`tok` for an argument of a conversion call: blanks inside a string travel as a visible stand-in (see WS)."""
+    return tok(re.sub(r"\s", WS, v)) if isinstance(v, str) and v != "" else tok(v)
+
 
 def gen_op(rng, lab, malformed):
     """One call: (kind, args tuple).  Valid-mostly; `malformed` raises the share of absent/empty/unknown/foreign tokens."""
@@ -227,6 +304,8 @@ def gen_op(rng, lab, malformed):
         r = rng.random()
         if r < (0.35 if malformed else 0.08):
             return rng.choice([None, "", "bogus", "g", "bar", "mol", "cm3", cur])
+        if r < (0.5 if malformed else 0.12):                                      # another spelling of a valid token, or of the current one
+            return rng.choice(near_misses(rng.choice(valid + ([cur] if cur else []))))
         return rng.choice(valid)
     k = rng.random()
     if k < 0.25:
@@ -244,6 +323,8 @@ def gen_op(rng, lab, malformed):
         u = pick(list(tab), lab[5])
         return ("M", (b, u))
     if k < 0.8:
+        if rng.random() < (0.4 if malformed else 0.15):                           # spellings of the two units (kelvin: impossible targets; Celsius: accepted, stored as '°C')
+            return ("T", (rng.choice(near_misses(rng.choice(["K", "°C"]))),))
         return ("T", (pick(["K", "°C", "C", "celsius"], lab[6]),))
     # combined call
     args = []
@@ -278,9 +359,29 @@ def apply_op(iso, kind, a):
         iso.convert(pressure_mode=a[0], pressure_unit=a[1], loading_basis=a[2], loading_unit=a[3], material_basis=a[4], material_unit=a[5])
 
 
-def single_step_args(lab):
-    """Every argument class for the three single-quantity conversions from this label state."""
+def single_step_args(lab, rng=None, k=6):
+    """Every argument class for the three single-quantity conversions from this label state; with `rng` also near-miss spellings of valid
+    tokens: every one of the two temperature units, and `k` sampled ones per argument position of the other calls (next to an absent, the
+    current and a valid partner argument)."""
     ops = []
+    if rng is not None:
+        cur_tab_l = c01.LTABLE.get(lab[2]) or c01.MOL
+        cur_tab_m = c01.MTABLE.get(lab[4]) or c01.GRAM
+        def nm(tokens):
+            return rng.choice(near_misses(rng.choice(list(tokens))))
+        for _ in range(k):
+            ops.append(("P", (nm(P_MODES + [lab[0]]), rng.choice([None, lab[1], "bar", "kPa"]))))
+            ops.append(("P", (rng.choice([None, "absolute", lab[0]]), nm(list(c01.PA) + ([lab[1]] if lab[1] else [])))))
+            ops.append(("L", (nm(L_BASES + [lab[2]]), rng.choice([None, lab[3], "mmol", "mg", "cm3"]))))
+            b = rng.choice([None, lab[2], "molar", "mass", "volume_gas"])
+            ops.append(("L", (b, nm(c01.LTABLE.get(b) or cur_tab_l))))
+            ops.append(("M", (nm(M_BASES + [lab[4]]), rng.choice([None, lab[5], "g", "cm3", "mol"]))))
+            b = rng.choice([None, lab[4], "mass", "volume", "molar"])
+            ops.append(("M", (b, nm(c01.MTABLE.get(b) or cur_tab_m))))
+            i = rng.randrange(6)                                                  # the combined call with one misspelt argument
+            ops.append(("A", tuple(nm(t) if i == j else None for j, t in enumerate((P_MODES, list(c01.PA), L_BASES, list(cur_tab_l), M_BASES, list(cur_tab_m))))))
+        for u in near_misses("K") + near_misses("°C"):
+            ops.append(("T", (u,)))
     for m in [None, "", "absolute", "relative", "relative%", "bogus"]:
         for u in [None, "", "bogus", "g"] + list(c01.PA):
             ops.append(("P", (m, u)))
@@ -330,7 +431,7 @@ def run(ck):
         w = rng.choice(worlds)
         ps = [0.11, 0.52, 0.93] if lab[0] != "absolute" else [1.5, 22.0, 310.0]
         ls = [0.25, 1.5, 2.75]
-        for op in single_step_args(lab):
+        for op in single_step_args(lab, rng, ck.n(6, 12)):
             cases.append((w, lab, ps, ls, w.temp if lab[6] == "K" else w.temp - 273.15, [op]))
     n_single = len(cases)
     # --- (b) histories
@@ -411,6 +512,7 @@ def run(ck):
                 out = err_class(e)
             has = (iso.l_interpolator is not None, iso.p_interpolator is not None)
             after = snapshot(iso)
+            rebuilt = rebuild_problem(iso)
             # queries at the same measured point (same row, same branch) after the call, and on a freshly constructed copy
             q_iso = q_fresh = None
             if ask_after:
@@ -422,13 +524,13 @@ def run(ck):
                 except Exception:  # noqa
                     q_fresh = None
             exp = expected_combined(ref, a) if ref is not None else None
-            trace.append((kind, a, before, out, after, had, has, (qb, qi, q_iso, q_fresh), exp))
+            trace.append((kind, a, before, out, after, had, has, (qb, qi, q_iso, q_fresh), exp, rebuilt))
             lines.append("cache " + tok(had[0]) + " " + tok(had[1]))
             plan.append(("cache", ci, None))
             if kind == "A":
-                lines.append(" ".join(["S"] + [tok(x) for x in a]))     # Model/IsoSeq.lean: the single calls, stopped at the first refusal
+                lines.append(" ".join(["S"] + [mtok(x) for x in a]))     # Model/IsoSeq.lean: the single calls, stopped at the first refusal
                 plan.append(("seq", ci, len(trace) - 1))
-            lines.append(" ".join([kind] + [tok(x) for x in a]))
+            lines.append(" ".join([kind] + [mtok(x) for x in a]))
             plan.append(("op", ci, len(trace) - 1))
         impl.append((ci, w, s0, trace, iso))
     t_impl = time.time()
@@ -458,14 +560,14 @@ def run(ck):
                     "calls_before": None}
         c0 = [canon(w, s0["labels"], p, l) for p, l in zip(s0["p"], s0["l"])] if complete else None
         k0 = tempK(s0["labels"], s0["t"])
-        for k, (kind, a, before, out, after, had, has, (qb, qi, q_iso, q_fresh), exp) in enumerate(trace):
+        for k, (kind, a, before, out, after, had, has, (qb, qi, q_iso, q_fresh), exp, rebuilt) in enumerate(trace):
             iso_desc["calls_before"] = [[x[0], [str(y) for y in x[1]], x[3]] for x in trace[:k]]
             changed_repr = before["labels"] != after["labels"]
             ck.count((kind, tuple(before["labels"]), a), nontrivial=(out == "ok" and (changed_repr or before["p"] != after["p"] or before["l"] != after["l"])),
                      bucket=fam + kind + ":" + out,
                      sample={"start": before["labels"], "op": [kind, list(a)], "outcome": out, "labels_after": after["labels"],
                              "model": rep_of.get((ci, k), "")[:160]} if (ci * 31 + k) % 977 == 0 else None)
-            sig = {"op": kind, "args": [str(x) for x in a], "from": [str(x) for x in before["labels"]]}
+            sig = {"op": kind, "args": [repr(x) if isinstance(x, str) and x != x.strip() else str(x) for x in a], "from": [str(x) for x in before["labels"]]}
             # --- oracle 1: structure never touched
             for f in ("branch", "extra", "index", "props", "mat", "ads"):
                 if before[f] != after[f]:
@@ -541,8 +643,9 @@ def run(ck):
                 ck.fail_case({**sig, "clause": "labels are not those the constructor stores for this representation", "label": "pressure_unit"},
                              {"labels_after": [str(x) for x in lab], "outcome": out})
                 break
-            if k == len(trace) - 1 and not constructor_accepts(w.pg, iso):
-                ck.fail_case({**sig, "clause": "constructor rejects to_dict()"}, {"labels": [str(x) for x in lab]})
+            if rebuilt is not None:                                                # after every call, accepted or refused
+                ck.fail_case({**sig, "clause": "constructor rejects to_dict()", "outcome": out}, {"labels": [str(x) for x in lab], "how": rebuilt, "isotherm": iso_desc})
+                break
             if c0 is not None and lab[2] not in ("fraction", "percent") or (c0 is not None and lab[5] in c01.MTABLE.get(lab[4], {})):
                 try:
                     cn = [canon(w, lab, p, l) for p, l in zip(after["p"], after["l"])]
